@@ -734,6 +734,7 @@ func c04Ownership(c *core.Ctx, rule string) {
 			}
 		}
 	}
+	c04DeleteArgs(c, rule, rsess, rDel, lSess)
 	// NewSess records the new SEID in the node's set
 	if fn := p.SSAFn(rNew); fn != nil {
 		recorded := false
@@ -816,4 +817,67 @@ func slotNonNilAt(p *core.Program, use ssa.Instruction, ld *ssa.UnOp, sessF *typ
 		found = true
 	})
 	return found
+}
+
+// c04DeleteArgs: every RemoteNode.DeleteSess call names a UP SEID of the node it is called on: the
+// LocalID of a session reached through that session's own rnode, the SEID the session was just looked
+// up by, or a key of the node's own set while that set is still in place.
+func c04DeleteArgs(c *core.Ctx, rule string, rsess *types.Var, rDel, lSess *types.Func) {
+	p := c.P
+	remoteSess := p.Method(pkgPfcp, "LocalNode", "RemoteSess")
+	n := 0
+	for _, fn := range p.OwnFuncs() {
+		for _, ci := range core.Calls(fn, rDel) {
+			n++
+			arg := core.CallArgs(ci)[0]
+			recv := core.CallRecv(ci)
+			sess, rpath := core.FieldPath(recv)
+			why := ""
+			ok := false
+			switch {
+			case len(rpath) == 1 && rpath[0] == "rnode" && core.IsPath(arg, sess, "LocalID"):
+				ok, why = true, "the session's own UP SEID, through the session's own node"
+			case len(rpath) == 1 && rpath[0] == "rnode":
+				// SEID the session was looked up by in the local table
+				if ex, isEx := sess.(*ssa.Extract); isEx && ex.Index == 0 {
+					if cl, isCl := ex.Tuple.(*ssa.Call); isCl && core.Callee(cl) == lSess && core.CallArgs(cl)[0] == arg {
+						ok, why = true, "the UP SEID the session was looked up by"
+					} else if isCl && core.Callee(cl) == remoteSess {
+						why = "the session was found by its CP SEID; the argument is not that session's UP SEID"
+					}
+				}
+			default:
+				if ex, isEx := arg.(*ssa.Extract); isEx && ex.Index == 1 {
+					if nx, isNx := ex.Tuple.(*ssa.Next); isNx {
+						if rng, isR := nx.Iter.(*ssa.Range); isR && core.IsPath(rng.X, recv, rsess.Name()) {
+							ok, why = true, "a key of the node's own SEID set"
+						}
+					}
+				}
+			}
+			c.Check(rule, fmt.Sprintf("delete-arg:%s#%d", core.FnName(fn), n), ci.Pos(), ok, "RemoteNode.DeleteSess is given a UP SEID of the node it is called on ("+why+")")
+		}
+	}
+	c.Floor(rule, n, 3, "RemoteNode.DeleteSess call sites")
+	// DeleteSess consults n.sess: while Reset walks the set it must still be in place
+	reset := p.SSAFn(p.Method(pkgPfcp, "RemoteNode", "Reset"))
+	dfn := p.SSAFn(rDel)
+	if reset == nil || dfn == nil {
+		return
+	}
+	consults := false
+	core.Instrs(dfn, func(in ssa.Instruction) {
+		if l, ok := in.(*ssa.Lookup); ok && core.IsPath(l.X, core.Recv(dfn), rsess.Name()) {
+			consults = true
+		}
+	})
+	if !consults {
+		return
+	}
+	for _, st := range storesToField(reset, rsess) {
+		for _, ci := range core.Calls(reset, rDel) {
+			c.Check(rule, "reset-set-intact", st.Pos(), !core.Reaches(st, ci.(ssa.Instruction)),
+				"RemoteNode.Reset does not replace the node's SEID set before a DeleteSess that consults it (the membership guard would miss and the session would stay installed with its SEID)")
+		}
+	}
 }
